@@ -99,7 +99,7 @@ def add_file(g, d, big, path=None):
     minrec = size // 1500 + 1
     recs = [min(65536, max(r, minrec)) for r in recs]
     d['fs'][path] = {'mode': g.pick([0o100644, 0o100755, 0o100600, 0xFFFFFFFF, 0x80000000]), 'mtime': g.pick([0, 1, 1500000000, 0x7FFFFFFF, 0x80000000, 0xFFFFFFFF, g.int(0, 0xFFFFFFFF)]),
-                  'content': {'seed': g.int(0, 1 << 30), 'size': size, 'alpha': g.pick(['bin', 'bin', 'zero', 'ascii', 'ff'])}, 'records': recs}
+                  'content': {'seed': g.int(0, 1 << 30), 'size': size, 'alpha': g.pick(['bin', 'bin', 'zero', 'ascii', 'ff', 'ids'])}, 'records': recs}
     return path
 
 
@@ -113,8 +113,11 @@ def add_dir(g, d, nmax=40, path=None):
     ents = []
     for _ in range(n):
         ln = g.pick([1, 1, 2, 5, 12, 40, 255, g.int(1, 255)])
-        style = g.int(0, 3)
-        if style == 0:
+        style = g.int(0, 4)
+        if style == 4:
+            # names that begin like a sync record (a parser that peeks at the buffer must not mistake them for one)
+            name = (g.pick([b'FAIL', b'DONE', b'DENT', b'DATA', b'OKAY', b'STAT', b'FAIL']) + g.pick([b'ED_TESTS.log', b'', b'\x04\x00\x00\x00oops', b'x' * max(0, ln - 4)]))[:255]
+        elif style == 0:
             name = g.bytes(ln)
         elif style == 1:
             name = (g.pick(['file', 'ü', '文', 'a b']) * ln).encode()[:ln] or b'x'
